@@ -2403,3 +2403,122 @@ def burst_programs(n, per=2):
         part = items[j:j + per]
         out.append(("bursts:%d" % (j // per), loop_program(part, n), [p[0] for p in part]))
     return out
+
+
+# ------------------------------------------------------------------------------------------------
+# "discarded result" family (systematic, deterministic): every call kind x every statement position that discards
+# results x every reference-bearing result type, each as one loop body.  The discarded value owns heap data built at
+# run time, so whoever takes it off the stack (the statement, the defer thunk, the tuple extraction) must release it.
+
+DISCARD_DECLS = '''
+type MapD map[string]int32
+
+type DErr struct {
+	msg string
+}
+
+func (e *DErr) Error() string { return e.msg }
+'''
+
+# name -> ([result types], [value expressions in k], [use expression of variable {v}])
+DISCARD_TYPES = {
+    "str": (["string"], ['"r" + itoa(k)'], ["int32(len({v}))"]),
+    "slice": (["I32s"], ["I32s{int32(k), 2, 3}"], ["int32(len({v}))"]),
+    "map": (["MapD"], ['MapD{"a": int32(k), "b" + itoa(k): 2}'], ["int32(len({v}))"]),
+    "ptr": (["*S"], ['&S{int32(k), "p" + itoa(k)}'], ["{v}.a"]),
+    "iface": (["interface{}"], ['interface{}(&S{int32(k), "i" + itoa(k)})'], ["{v}.(*S).a"]),
+    "error": (["error"], ['error(&DErr{"e" + itoa(k)})'], ["int32(len({v}.Error()))"]),
+    "struct": (["W"], ['W{s: I32s{int32(k)}, name: "w" + itoa(k), p: &S{1, "q" + itoa(k)}}'], ["int32(len({v}.name))"]),
+    "multi_str_slice": (["string", "I32s"], ['"r" + itoa(k)', "I32s{int32(k), 2}"], ["int32(len({v}))", "int32(len({v}))"]),
+    "multi_struct_error": (["W", "error"], ['W{s: I32s{int32(k)}, name: "w" + itoa(k), p: &S{1, "q" + itoa(k)}}', 'error(&DErr{"e" + itoa(k)})'],
+                           ["int32(len({v}.name))", "int32(len({v}.Error()))"]),
+    "multi_ptr_iface_str": (["*S", "interface{}", "string"], ['&S{int32(k), "p" + itoa(k)}', 'interface{}("boxed" + itoa(k))', '"t" + itoa(k)'],
+                            ["{v}.a", "int32(len({v}.(string)))", "int32(len({v}))"]),
+}
+
+# call kind -> (setup statements in the body, call expression with {a} = argument); {X} = type tag
+DISCARD_KINDS = {
+    "static": ("", "ds{X}({a})"),
+    "method": ("\tobj := &DObj{X}{{}}\n", "obj.M({a})"),
+    "iface": ("\tvar it DIface{X} = &DObj{X}{{}}\n", "it.M({a})"),
+    "closure": ('\tbase := "c" + itoa(i)\n\tcl := func(k int) {R} {{\n\t\tif len(base) > 99 {{\n\t\t\tk++\n\t\t}}\n\t\treturn {RET}\n\t}}\n', "cl({a})"),
+    "field": ("\thf := HoldFn{X}{{f: ds{X}}}\n", "hf.f({a})"),
+    "mapelem": ('\tfm := map[string]Fn{X}{{"a": ds{X}}}\n', 'fm["a"]({a})'),
+    "sliceelem": ("\tfs := []Fn{X}{{ds{X}}}\n", "fs[0]({a})"),
+}
+
+
+def _discard_positions(nres):
+    """position name -> statement template ({c:ARG} = the call with argument ARG); uses `n` as accumulator"""
+    pos = {
+        "exprstmt": "\t{c:i}\n",
+        "defer": "\tdefer {c:i}\n",
+        "defer_in_loop": "\tfor j := 0; j < 3; j++ {{\n\t\tdefer {c:i + j}\n\t}}\n",
+    }
+    blanks = ", ".join(["_"] * nres)
+    pos["assign_blank"] = "\t%s = {c:i}\n" % blanks
+    if nres >= 2:
+        # multi-value, partially discarded: keep exactly one result (each in turn)
+        for keep in range(nres):
+            lhs = ", ".join("x" if j == keep else "_" for j in range(nres))
+            pos["keep%d" % keep] = "\t%s := {c:i}\n\tn += {use%d}\n" % (lhs, keep)
+    return pos
+
+
+def discard_programs(n, types=None):
+    """[(name, src, [construct names])]: one program per result type, one loop per (call kind, position)"""
+    out = []
+    for tname in (types or DISCARD_TYPES):
+        rts, vals, uses = DISCARD_TYPES[tname]
+        X = "".join(p.capitalize() for p in tname.split("_"))
+        R = rts[0] if len(rts) == 1 else "(" + ", ".join(rts) + ")"
+        RET = ", ".join(vals)
+        decls = ["func ds%s(k int) %s {\n\treturn %s\n}\n" % (X, R, RET),
+                 "type DObj%s struct {\n\tn int32\n}\n" % X,
+                 "func (o *DObj%s) M(k int) %s {\n\to.n++\n\treturn %s\n}\n" % (X, R, RET),
+                 "type DIface%s interface {\n\tM(k int) %s\n}\n" % (X, R),
+                 "type Fn%s func(int) %s\n" % (X, R),
+                 "type HoldFn%s struct {\n\tf Fn%s\n}\n" % (X, X)]
+        bodies, names = [], []
+        for kname, (setup, call) in DISCARD_KINDS.items():
+            for pname, stmt in _discard_positions(len(rts)).items():
+                def sub(m):
+                    return call.format(a=m.group(1), X=X)
+                s = re.sub(r"\{c:([^}]*)\}", sub, stmt)
+                for j, u in enumerate(uses):
+                    s = s.replace("{use%d}" % j, u.format(v="x"))
+                s = s.replace("{{", "{").replace("}}", "}")
+                body = "\n\tvar n int32\n" + setup.format(X=X, R=R, RET=RET) + s + "\treturn n + 1\n"
+                bodies.append(("%s/%s/%s" % (tname, kname, pname), "", body))
+                names.append("discard:%s/%s/%s" % (tname, kname, pname))
+        src = loop_program(bodies, n, extra_decls=DISCARD_DECLS + "\n".join(decls))
+        out.append(("discard:" + tname, src, names))
+    return out
+
+# builtins whose reference-bearing result is discarded (Go allows them only under `_ =`; copy also as a statement / defer)
+LOOP_BODIES8 = {
+    "discard_builtin_results": ('''
+type BytesD []byte
+''', '''
+	base := I32s{int32(i), 1}
+	_ = append(base, 2, 3, 4)
+	_ = append(I32s{}, base...)
+	_ = make(I32s, i%5+1)
+	_ = make(MapDB)
+	_ = new(S)
+	_ = string(BytesD("ab" + itoa(i)))
+	_ = BytesD("cd" + itoa(i))
+	_ = "x" + itoa(i)
+	_ = &S{int32(i), "lit" + itoa(i)}
+	_ = Strs{"a" + itoa(i)}
+	_ = interface{}("boxed" + itoa(i))
+	dst := make(Strs, 2)
+	src := Strs{"s" + itoa(i), "t"}
+	copy(dst, src)
+	defer copy(dst, Strs{"u" + itoa(i)})
+	return base[0]
+'''),
+}
+LOOP_BODIES8["discard_builtin_results"] = ("type MapDB map[string]int32\n" + LOOP_BODIES8["discard_builtin_results"][0],
+                                           LOOP_BODIES8["discard_builtin_results"][1])
+LOOP_BODIES.update(LOOP_BODIES8)
